@@ -72,7 +72,7 @@ type bundleSnap struct {
 }
 
 func (b bundleSnap) String() string {
-	return fmt.Sprintf("%s idx=%d ov=%v rules=%s", b.ID, b.Index, b.Override, list(b.Rules))
+	return fmt.Sprintf("%q idx=%d ov=%v rules=%s", b.ID, b.Index, b.Override, list(b.Rules))
 }
 
 type groupSnap struct {
@@ -80,6 +80,8 @@ type groupSnap struct {
 	Index    int
 	Override bool
 }
+
+func (g groupSnap) String() string { return fmt.Sprintf("{%q %d %v}", g.ID, g.Index, g.Override) }
 
 // snap is one observation of all observables.
 type snap struct {
@@ -102,7 +104,7 @@ func canonReal(r *placement.Rule) string {
 	}
 	var cons []string
 	for _, c := range r.LabelConstraints {
-		cons = append(cons, fmt.Sprintf("%s %s %s", c.Key, c.Op, strings.Join(c.Values, "|")))
+		cons = append(cons, fmt.Sprintf("{%q %q %q}", c.Key, string(c.Op), c.Values))
 	}
 	return canonRule(r.GroupID, r.ID, r.Index, r.Override, r.StartKey, r.EndKey, r.StartKeyHex, r.EndKeyHex,
 		string(r.Role), r.Count, cons, r.LocationLabels, r.IsolationLevel)
@@ -144,7 +146,7 @@ func observe(m *placement.RuleManager) *snap {
 			s.rule[g+"/"+id] = cc.one(m.GetRule(g, id))
 		}
 		if rg := m.GetRuleGroup(g); rg != nil {
-			s.group[g] = fmt.Sprintf("%s idx=%d ov=%v", rg.ID, rg.Index, rg.Override)
+			s.group[g] = fmt.Sprintf("%q idx=%d ov=%v", rg.ID, rg.Index, rg.Override)
 		} else {
 			s.group[g] = "<nil>"
 		}
@@ -327,7 +329,7 @@ func diffModel(md *model, s *snap) (d *diff, skipped int) {
 	}
 	for _, g := range groupIDs {
 		e := md.group(g)
-		exp := fmt.Sprintf("%s idx=%d ov=%v", e.ID, e.Index, e.Override)
+		exp := fmt.Sprintf("%q idx=%d ov=%v", e.ID, e.Index, e.Override)
 		if _, explicit := md.groups[g]; s.group[g] != exp && (explicit || s.group[g] != "<nil>") {
 			return &diff{"GetRuleGroup", g, s.group[g], exp}, skipped
 		}
